@@ -229,6 +229,30 @@ func classify(err error) string {
 	return "other"
 }
 
+// residue counts what is in the directory besides tables.list and *.ref files, and the *.ref files.
+func (r *runner) residue() map[string]int {
+	res := map[string]int{"locks": 0, "tmps": 0, "refs": 0, "others": 0}
+	es, err := realos.ReadDir(r.dir)
+	if err != nil {
+		return res
+	}
+	for _, e := range es {
+		n := e.Name()
+		switch {
+		case n == "tables.list":
+		case strings.HasSuffix(n, ".lock"):
+			res["locks"]++
+		case strings.HasSuffix(n, ".reftmp"):
+			res["tmps"]++
+		case strings.HasSuffix(n, ".ref"):
+			res["refs"]++
+		default:
+			res["others"]++
+		}
+	}
+	return res
+}
+
 // decodeDir reads tables.list and decodes every listed table independently.
 func (r *runner) decodeDir(full bool) (shape [][2]uint64, tables []map[string]interface{}, problem string) {
 	shape = [][2]uint64{}
@@ -390,6 +414,7 @@ func (r *runner) step(s Step) (ev map[string]interface{}) {
 		}
 		setRes(err)
 		ev["dirshape"], _, _ = r.decodeDir(false)
+		ev["residue"] = r.residue()
 	case "compact":
 		var e *reftable.LogExpirationConfig
 		exp := Expiry{}
@@ -408,12 +433,14 @@ func (r *runner) step(s Step) (ev map[string]interface{}) {
 		ev["first"], ev["last"], ev["expiry"], ev["hasexpiry"] = first, last, exp, s.Expiry != nil
 		setRes(err)
 		ev["dirshape"], _, _ = r.decodeDir(false)
+		ev["residue"] = r.residue()
 	case "disk":
 		_, tabs, problem := r.decodeDir(true)
 		ev["tables"], ev["after"], ev["problem"] = tabs, s.After, problem
 	case "view":
 		ev["tag"], ev["hasraw"] = s.Tag, s.HasRaw
 		ev["ok"] = true
+		ev["interleave"] = ""
 		fail := func(err error) { ev["ok"], ev["err"] = false, err.Error() }
 		ev["refs"], ev["logs"], ev["rawrefs"], ev["rawlogs"] = []refOut{}, []logOut{}, []refOut{}, []logOut{}
 		for _, raw := range []bool{false, true} {
@@ -449,6 +476,38 @@ func (r *runner) step(s Step) (ev map[string]interface{}) {
 				ev["rawrefs"], ev["rawlogs"] = refs, logs
 			} else {
 				ev["refs"], ev["logs"] = refs, logs
+				// the same walk again, with log lookups through the same view in its middle
+				it1, err := tab.SeekRef("")
+				if err == nil {
+					got := []refOut{}
+					for n := 0; ; n++ {
+						var rr reftable.RefRecord
+						ok, err := it1.NextRef(&rr)
+						if err != nil {
+							ev["interleave"] = "ref walk interleaved with log lookups: " + err.Error()
+							break
+						}
+						if !ok {
+							break
+						}
+						got = append(got, r.refFromRec(&rr))
+						if n%2 == 0 {
+							reftable.ReadLogAt(tab, rr.RefName, math.MaxUint64)
+							if it2, err := tab.SeekLog("", math.MaxUint64); err == nil {
+								var lr reftable.LogRecord
+								it2.NextLog(&lr)
+							}
+						}
+						if len(got) > len(refs)+5 {
+							break
+						}
+					}
+					a, _ := json.Marshal(got)
+					b, _ := json.Marshal(refs)
+					if ev["interleave"] == "" && string(a) != string(b) {
+						ev["interleave"] = fmt.Sprintf("ref walk interleaved with log lookups returns %d refs, plain walk %d", len(got), len(refs))
+					}
+				}
 			}
 		}
 	case "seekref":
@@ -498,7 +557,7 @@ func (r *runner) step(s Step) (ev map[string]interface{}) {
 // fill makes sure a panicking step still yields an event with every field its action reads.
 func fill(ev map[string]interface{}) {
 	def := map[string]interface{}{"shape": [][2]uint64{}, "dirshape": [][2]uint64{}, "parts": []int{}, "multi": false, "auto": false, "namecheck": true,
-		"first": 0, "last": 0, "expiry": Expiry{}, "hasexpiry": false, "tables": []int{}, "after": "", "tag": "PANIC", "hasraw": false,
+		"first": 0, "last": 0, "expiry": Expiry{}, "hasexpiry": false, "residue": map[string]int{"locks": 0, "tmps": 0, "refs": 0, "others": 0}, "tables": []int{}, "after": "", "tag": "PANIC", "hasraw": false, "interleave": "",
 		"refs": []int{}, "logs": []int{}, "rawrefs": []int{}, "rawlogs": []int{}, "k": 0, "i": 0, "raw": false, "oid": "", "next": 0}
 	for k, v := range def {
 		if _, ok := ev[k]; !ok {
